@@ -173,12 +173,14 @@ def fact_laws(repo, res):
     key = f"{f.key}:factor-times-factor"
     res.ob(key)
     c = _find(s, r"for (?P<k0>\w+) in sorted\(fac0\):\n\s+(?P<f0>\w+) = F\.nodes\[fac0\[(?P<k0b>\w+)\]\]\['expression'\]\n\s+for (?P<k1>\w+) in sorted\(fac1\):\n\s+(?P<f1>\w+) = F\.nodes\[fac1\[(?P<k1b>\w+)\]\]\['expression'\]\n\s+"
-              r"(?P<ak>\w+) = tuple\(sorted\((?P<u>[^\n]+)\)\)[^\n]*\n\s+factors\[(?P<ak2>\w+)\] = graph_insert\(F, (?P<e>[^\n]+)\)", "argument * argument")
+              r"(?P<ak>\w+) = (?P<kx>[^\n#]+?)\s*(?:#[^\n]*)?\n\s+factors\[(?P<ak2>\w+)\] = graph_insert\(F, (?P<e>[^\n]+)\)", "argument * argument")
     e = c.group("e").replace(" ", "")
-    u = c.group("u").replace(" ", "")
+    mu = re.fullmatch(r"tuple\(sorted\((.+)\)\)", c.group("kx").strip())
+    u = mu.group(1).replace(" ", "") if mu else "<" + c.group("kx").strip() + ">"
     if not (c.group("k0") == c.group("k0b") and c.group("k1") == c.group("k1b") and c.group("ak") == c.group("ak2")
             and e in (f"{c.group('f0')}*{c.group('f1')}", f"{c.group('f1')}*{c.group('f0')}") and u in (f"{c.group('k0')}+{c.group('k1')}", f"{c.group('k1')}+{c.group('k0')}")):
-        res.fail(key, f"product of two argument-dependent operands records `{c.group('e')}` under key sorted({c.group('u')})", m.line(f.node))
+        res.fail(key, f"product of two argument-dependent operands records `{c.group('e')}` under key `{c.group('kx').strip()}` "
+                 "(must be the sorted union of both operands' argument keys)", m.line(f.node))
     # ---- Division
     f, s = src("handle_division")
     key = f"{f.key}:law"
@@ -263,7 +265,8 @@ def rule_coherence(repo, res):
         dp = [p for p in params if p == "domain"]
         hits = re.findall(r"integrand\[\(?(\w+), (\w+)\)?\]\['(\w+)'\]", s)
         if not hits:
-            raise AnalysisError(f"{q}: no integrand[(cell, rule)] lookup found")
+            res.fail(key, f"{q} no longer reads the integrand map under its own (domain, quadrature rule) key", m.line(f.node))
+            continue
         for a, b, what in hits:
             if not rp or not dp or a != dp[0] or b != rp[0]:
                 res.fail(key, f"{q} reads integrand[({a}, {b})]['{what}'] - not the (domain, quadrature rule) it was called for: "
@@ -301,6 +304,9 @@ def rule_coherence(repo, res):
     res.ob(key)
     fl = _find(s, r"(?P<fi>\w+) = blockdata\.factor_indices_comp_indices\[0\]\[0\]", "factor index")
     vv = _find(s, r"(?P<v>\w+) = (?P<F>\w+)\.nodes\[(?P<fi>\w+)\]\['expression'\]\n\s+(?P<f>\w+) = self\.get_var\((?P<r>\w+), (?P<d>\w+), (?P<v2>\w+)\)", "factor value lookup")
+    fdef = re.findall(rf"\b{vv.group('F')} = ([^\n]+)\n", s)
+    if fdef != [f"self.ir.expression.integrand[{f.params[2]}, {f.params[1]}]['factorization']"]:
+        res.fail(key, f"the factorisation graph used for the block factors is `{fdef}`, not the one of this (cell, rule)", m.line(f.node))
     if not (vv.group("fi") == fl.group("fi") and vv.group("v") == vv.group("v2") and vv.group("r") == f.params[1] and vv.group("d") == f.params[2]):
         res.fail(key, "the scalar factor of a block is not looked up in this rule's factorisation graph / scope", m.line(f.node))
     key = f"{f.key}:product"
@@ -411,9 +417,12 @@ def qmeta_flow(repo, res):
     s = ast.unparse(f.node)
     key = f"{f.key}:degree-selection"
     res.ob(key)
-    mm = _find(s, r"(?P<qd>\w+) = -1\n\s+if 'quadrature_degree' in (?P<md>\w+)\.keys\(\):\n\s+(?P<qd2>\w+) = (?P<md2>\w+)\['quadrature_degree'\]\n\s+if (?P<qd3>\w+) < 0:\n\s+(?P<qd4>\w+) = (?P<est>[^\n]+)\n",
+    mm = _find(s, r"(?P<qd>\w+) = -1\n\s+if 'quadrature_degree' in (?P<md>\w+)\.keys\(\):\n\s+(?P<qd2>\w+) = (?P<md2>\w+)\['quadrature_degree'\]\n\s+if (?P<cond>[^\n]+):\n\s+(?P<qd4>\w+) = (?P<est>[^\n]+)\n",
                "degree selection")
-    if not (mm.group("qd") == mm.group("qd2") == mm.group("qd3") == mm.group("qd4") and mm.group("md") == mm.group("md2")):
+    if mm.group("cond").replace(" ", "") != f"{mm.group('qd')}<0":
+        res.fail(key, f"the estimated degree replaces the requested one under `{mm.group('cond')}`; it may only do so when no non-negative "
+                 "degree was requested (a requested quadrature_degree must be honoured even if lower than the estimate)", an.line(f.node))
+    if not (mm.group("qd") == mm.group("qd2") == mm.group("qd4") and mm.group("md") == mm.group("md2")):
         res.fail(key, "the requested degree is not taken from the metadata with the estimated degree as fallback for negative/absent values", an.line(f.node))
     if "estimated_polynomial_degree" not in mm.group("est") or "max" not in mm.group("est"):
         res.fail(key, f"fallback degree is `{mm.group('est')}`, not the (maximum) estimated polynomial degree", an.line(f.node))
@@ -485,8 +494,10 @@ def qmeta_flow(repo, res):
     s = ast.unparse(g.node)
     key = f"{g.key}:vertex-scheme"
     res.ob(key)
-    vx = _find(s, r"(?P<p>\w+) = basix\.cell\.geometry\((?P<c>\w+)\)\n\s+(?P<v>\w+) = basix\.cell\.volume\((?P<c2>\w+)\)\n\s+(?P<w>\w+) = np\.full\((?P<p2>\w+)\.shape\[0\], (?P<v2>\w+) / (?P<p3>\w+)\.shape\[0\]", "vertex scheme")
-    if not (vx.group("c") == vx.group("c2") and vx.group("p") == vx.group("p2") == vx.group("p3") and vx.group("v") == vx.group("v2")):
+    vx = _find(s, r"(?P<p>\w+) = basix\.cell\.geometry\((?P<c>\w+)\)\n\s+(?P<v>\w+) = basix\.cell\.volume\((?P<c2>\w+)\)\n\s+(?P<w>\w+) = np\.full\((?P<p2>\w+)\.shape\[0\], (?P<val>[^,]+),", "vertex scheme")
+    if vx.group("val").replace(" ", "") != f"{vx.group('v')}/{vx.group('p')}.shape[0]":
+        res.fail(key, f"vertex-scheme weights are `{vx.group('val')}` each; they must be volume / number of vertices (the rule would not integrate constants exactly)", rep.line(g.node))
+    if not (vx.group("c") == vx.group("c2") and vx.group("p") == vx.group("p2")):
         res.fail(key, "vertex scheme does not use the vertices of the integration entity with weights volume/n", rep.line(g.node))
     if not re.search(rf"rules\[{vx.group('c')}\] = \({vx.group('p')}, {vx.group('w')}, None\)", s):
         res.fail(key, "vertex rule is not registered under its own cell type with its points and weights", rep.line(g.node))
